@@ -31,7 +31,8 @@ From MW Require Import Model.Base Model.F64 Model.Num Model.Datum Model.Transfor
   Model.VmTypes Model.Heap Model.Gc Model.VmBase Model.Compile Model.Vm
   Proofs.VmProofs0 Proofs.GcProofs Proofs.SymtabProofs Proofs.QuoteHeapProofs
   Proofs.CompileProofs Proofs.RunProofs Proofs.CompileCorrect Proofs.TailProofs Proofs.FrameSteps
-  Proofs.CellFuelProofs Proofs.CompileCorrect2.
+  Proofs.CellFuelProofs Proofs.CompileCorrect2 Proofs.FrameSteps3 Proofs.Closures3 Proofs.CompileStatic3
+  Proofs.CompileCorrect3 Proofs.FrameSteps5 Proofs.StoreLocal5.
 From MW Require Proofs.ScopeProofs.
 Open Scope N_scope.
 
@@ -107,7 +108,8 @@ Fixpoint wf6 (e : expr6) (sc : list text) {struct e} : Prop :=
   | WIf c a b => wf6 c sc /\ wf6 a sc /\ wf6 b sc
   | WIf1 c a => wf6 c sc /\ wf6 a sc
   | WVar x => is_primitive_symbol (CSym x) = false
-  | WDefine x e | WSet x e => is_primitive_symbol (CSym x) = false /\ pindex x sc = None /\ wf6 e sc
+  | WDefine x e => is_primitive_symbol (CSym x) = false /\ pindex x sc = None /\ wf6 e sc
+  | WSet x e => is_primitive_symbol (CSym x) = false /\ wf6 e sc
   | WApp f args => special_head (cell_of6 f) = false /\ wf6 f sc /\
                    (fix all (l : list expr6) : Prop := match l with [] => True | x :: r => wf6 x sc /\ all r end) args
   | WLam ps fs bodies =>
@@ -169,24 +171,12 @@ Fixpoint expr6_ind2 (e : expr6) : P e :=
   end.
 End expr6_ind2.
 
-(* ============================================================ values *)
-(* a closure: parameters, captured names, body expressions, the values of the captured variables *)
+(* ============================================================ values, store *)
+(* a closure: parameters, captured names, body expressions, the LOCATIONS of the captured variables
+   (not recursive in values: the content of a location is in the store) *)
 Inductive rval6 :=
 | R6Base (r : rval)
-| R6Clo (ps cs : list text) (bodies : list expr6) (cvals : list rval6).
-
-Section rval6_ind2.
-Variable P : rval6 -> Prop.
-Hypothesis Hbase : forall r, P (R6Base r).
-Hypothesis Hclo : forall ps cs bodies cvals, Forall P cvals -> P (R6Clo ps cs bodies cvals).
-Fixpoint rval6_ind2 (r : rval6) : P r :=
-  match r with
-  | R6Base b => Hbase b
-  | R6Clo ps cs bodies cvals => Hclo ps cs bodies cvals
-      ((fix go (l : list rval6) : Forall P l :=
-          match l with [] => Forall_nil P | x :: t => Forall_cons x (rval6_ind2 x) (go t) end) cvals)
-  end.
-End rval6_ind2.
+| R6Clo (ps cs : list text) (bodies : list expr6) (clocs : list nat).
 
 Definition rcell6 (r : rval6) : cell :=
   match r with R6Base b => rcell b | R6Clo ps _ _ _ => CProc None end.
@@ -197,61 +187,90 @@ Definition upd6 (rho : env6) (x : text) (r : rval6) : env6 :=
   fun y => if text_eqb y x then Some r else rho y.
 Definition rho6_empty : env6 := fun _ => None.
 
+(* the store: location l is position l of the list *)
+Definition store6 := list rval6.
+Fixpoint sset6 (sigma : store6) (l : nat) (r : rval6) : store6 :=
+  match sigma, l with
+  | [], _ => []
+  | _ :: t, O => r :: t
+  | x :: t, S l' => x :: sset6 t l' r
+  end.
+Lemma sset6_length sigma : forall l r, length (sset6 sigma l r) = length sigma.
+Proof. induction sigma as [|x t IH]; intros [|l] r; cbn [sset6 length]; auto. Qed.
+Lemma sset6_same sigma : forall l r, (l < length sigma)%nat -> nth_error (sset6 sigma l r) l = Some r.
+Proof.
+  induction sigma as [|x t IH]; intros [|l] r H; cbn [sset6 length nth_error] in *; try lia; [reflexivity|].
+  apply IH. lia.
+Qed.
+Lemma sset6_other sigma : forall l k r, l <> k -> nth_error (sset6 sigma l r) k = nth_error sigma k.
+Proof.
+  induction sigma as [|x t IH]; intros [|l] [|k] r H; cbn [sset6 nth_error]; try reflexivity; try congruence.
+  apply IH. congruence.
+Qed.
+
 (* ============================================================ reference semantics *)
 Section Sem6.
 Variable bsem : N -> list rval -> option rval.
 
-(* [ref_eval6 sc lv rho e r rho']: inside a lambda whose environment binds the names sc to the
-   values lv (top level: both empty), with the global environment rho, e has the value r and
-   leaves the global environment rho'.  Call by value, operands left to right, then the operator,
-   then the body expressions of the closure, in sequence (the value is that of the last one), with
-   its parameters bound to the operands and its captured names
-   to the captured values.  Local variables are immutable (set! acts on globals only), so a
-   captured variable is represented by its value. *)
-Inductive ref_eval6 : list text -> list rval6 -> env6 -> expr6 -> rval6 -> env6 -> Prop :=
-| R6_const sc lv rho c : ref_eval6 sc lv rho (WConst c) (R6Base (RDatum c)) rho
-| R6_quote sc lv rho d : ref_eval6 sc lv rho (WQuote d) (R6Base (RDatum d)) rho
-| R6_local sc lv rho x i r : pindex x sc = Some i -> nth_error lv (N.to_nat i) = Some r ->
-    ref_eval6 sc lv rho (WVar x) r rho
-| R6_global sc lv rho x r : pindex x sc = None -> rho x = Some r -> r <> R6Base (RDatum CUndef) ->
-    ref_eval6 sc lv rho (WVar x) r rho
-| R6_if_t sc lv rho c a b rc rho1 r rho2 :
-    ref_eval6 sc lv rho c rc rho1 -> is_false6 rc = false -> ref_eval6 sc lv rho1 a r rho2 ->
-    ref_eval6 sc lv rho (WIf c a b) r rho2
-| R6_if_f sc lv rho c a b rc rho1 r rho2 :
-    ref_eval6 sc lv rho c rc rho1 -> is_false6 rc = true -> ref_eval6 sc lv rho1 b r rho2 ->
-    ref_eval6 sc lv rho (WIf c a b) r rho2
-| R6_if1_t sc lv rho c a rc rho1 r rho2 :
-    ref_eval6 sc lv rho c rc rho1 -> is_false6 rc = false -> ref_eval6 sc lv rho1 a r rho2 ->
-    ref_eval6 sc lv rho (WIf1 c a) r rho2
-| R6_if1_f sc lv rho c a rc rho1 :
-    ref_eval6 sc lv rho c rc rho1 -> is_false6 rc = true ->
-    ref_eval6 sc lv rho (WIf1 c a) (R6Base (RDatum CVoid)) rho1
-| R6_define sc lv rho x e r rho1 :
-    ref_eval6 sc lv rho e r rho1 -> ref_eval6 sc lv rho (WDefine x e) (R6Base (RDatum CVoid)) (upd6 rho1 x r)
-| R6_set sc lv rho x e r rho1 old :
-    ref_eval6 sc lv rho e r rho1 -> rho1 x = Some old ->
-    ref_eval6 sc lv rho (WSet x e) (R6Base (RDatum CVoid)) (upd6 rho1 x r)
-| R6_lam sc lv rho ps fs bodies cvals :
-    Forall2 (fun x v => exists i, pindex x sc = Some i /\ nth_error lv (N.to_nat i) = Some v)
-            (capnames6 sc fs) cvals ->
-    ref_eval6 sc lv rho (WLam ps fs bodies) (R6Clo ps (capnames6 sc fs) bodies cvals) rho
-| R6_app_builtin sc lv rho f args rbs rho1 b rho2 r :
-    ref_evals6 sc lv rho args (map R6Base rbs) rho1 -> ref_eval6 sc lv rho1 f (R6Base (RBuiltin b)) rho2 ->
+(* [ref_eval6 sc lv sg rho e r sg' rho']: inside a lambda whose environment binds the names sc to
+   the LOCATIONS lv (top level: both empty), with the store sg and the global environment rho, e has
+   the value r and leaves the store sg' and the globals rho'.  Call by value, operands left to right,
+   then the operator, then the body expressions of the closure in sequence (the value is that of
+   the last one), its parameters bound to FRESH locations holding the operands and its captured
+   names to the captured locations.  (set! x e): x bound by the scope -> the location of x is
+   overwritten; otherwise the global x. *)
+Inductive ref_eval6 : list text -> list nat -> store6 -> env6 -> expr6 -> rval6 -> store6 -> env6 -> Prop :=
+| R6_const sc lv sg rho c : ref_eval6 sc lv sg rho (WConst c) (R6Base (RDatum c)) sg rho
+| R6_quote sc lv sg rho d : ref_eval6 sc lv sg rho (WQuote d) (R6Base (RDatum d)) sg rho
+| R6_local sc lv sg rho x i l r : pindex x sc = Some i -> nth_error lv (N.to_nat i) = Some l ->
+    nth_error sg l = Some r ->
+    ref_eval6 sc lv sg rho (WVar x) r sg rho
+| R6_global sc lv sg rho x r : pindex x sc = None -> rho x = Some r -> r <> R6Base (RDatum CUndef) ->
+    ref_eval6 sc lv sg rho (WVar x) r sg rho
+| R6_if_t sc lv sg rho c a b rc sg1 rho1 r sg2 rho2 :
+    ref_eval6 sc lv sg rho c rc sg1 rho1 -> is_false6 rc = false -> ref_eval6 sc lv sg1 rho1 a r sg2 rho2 ->
+    ref_eval6 sc lv sg rho (WIf c a b) r sg2 rho2
+| R6_if_f sc lv sg rho c a b rc sg1 rho1 r sg2 rho2 :
+    ref_eval6 sc lv sg rho c rc sg1 rho1 -> is_false6 rc = true -> ref_eval6 sc lv sg1 rho1 b r sg2 rho2 ->
+    ref_eval6 sc lv sg rho (WIf c a b) r sg2 rho2
+| R6_if1_t sc lv sg rho c a rc sg1 rho1 r sg2 rho2 :
+    ref_eval6 sc lv sg rho c rc sg1 rho1 -> is_false6 rc = false -> ref_eval6 sc lv sg1 rho1 a r sg2 rho2 ->
+    ref_eval6 sc lv sg rho (WIf1 c a) r sg2 rho2
+| R6_if1_f sc lv sg rho c a rc sg1 rho1 :
+    ref_eval6 sc lv sg rho c rc sg1 rho1 -> is_false6 rc = true ->
+    ref_eval6 sc lv sg rho (WIf1 c a) (R6Base (RDatum CVoid)) sg1 rho1
+| R6_define sc lv sg rho x e r sg1 rho1 :
+    ref_eval6 sc lv sg rho e r sg1 rho1 ->
+    ref_eval6 sc lv sg rho (WDefine x e) (R6Base (RDatum CVoid)) sg1 (upd6 rho1 x r)
+| R6_set sc lv sg rho x e r sg1 rho1 old :
+    pindex x sc = None -> ref_eval6 sc lv sg rho e r sg1 rho1 -> rho1 x = Some old ->
+    ref_eval6 sc lv sg rho (WSet x e) (R6Base (RDatum CVoid)) sg1 (upd6 rho1 x r)
+| R6_setl sc lv sg rho x e r sg1 rho1 i l :
+    pindex x sc = Some i -> nth_error lv (N.to_nat i) = Some l ->
+    ref_eval6 sc lv sg rho e r sg1 rho1 -> (l < length sg1)%nat ->
+    ref_eval6 sc lv sg rho (WSet x e) (R6Base (RDatum CVoid)) (sset6 sg1 l r) rho1
+| R6_lam sc lv sg rho ps fs bodies clocs :
+    Forall2 (fun x l => exists i, pindex x sc = Some i /\ nth_error lv (N.to_nat i) = Some l)
+            (capnames6 sc fs) clocs ->
+    ref_eval6 sc lv sg rho (WLam ps fs bodies) (R6Clo ps (capnames6 sc fs) bodies clocs) sg rho
+| R6_app_builtin sc lv sg rho f args rbs sg1 rho1 b sg2 rho2 r :
+    ref_evals6 sc lv sg rho args (map R6Base rbs) sg1 rho1 ->
+    ref_eval6 sc lv sg1 rho1 f (R6Base (RBuiltin b)) sg2 rho2 ->
     bsem b rbs = Some r ->
-    ref_eval6 sc lv rho (WApp f args) (R6Base r) rho2
-| R6_app_closure sc lv rho f args rs rho1 ps cs bodies cvals rho2 vs pre r rho3 :
-    ref_evals6 sc lv rho args rs rho1 -> ref_eval6 sc lv rho1 f (R6Clo ps cs bodies cvals) rho2 ->
+    ref_eval6 sc lv sg rho (WApp f args) (R6Base r) sg2 rho2
+| R6_app_closure sc lv sg rho f args rs sg1 rho1 ps cs bodies clocs sg2 rho2 vs pre r sg3 rho3 :
+    ref_evals6 sc lv sg rho args rs sg1 rho1 ->
+    ref_eval6 sc lv sg1 rho1 f (R6Clo ps cs bodies clocs) sg2 rho2 ->
     length rs = length ps ->
-    (* the body expressions in sequence (the same judgement as for operands: left to right, the
-       global environment threaded); the value is that of the LAST one *)
-    ref_evals6 (ps ++ cs) (rs ++ cvals) rho2 bodies vs rho3 -> vs = pre ++ [r] ->
-    ref_eval6 sc lv rho (WApp f args) r rho3
-with ref_evals6 : list text -> list rval6 -> env6 -> list expr6 -> list rval6 -> env6 -> Prop :=
-| R6_nil sc lv rho : ref_evals6 sc lv rho [] [] rho
-| R6_cons sc lv rho x r rho1 xs rs rho2 :
-    ref_eval6 sc lv rho x r rho1 -> ref_evals6 sc lv rho1 xs rs rho2 ->
-    ref_evals6 sc lv rho (x :: xs) (r :: rs) rho2.
+    (* the body expressions in sequence, the parameters at fresh locations; the value is that of the LAST one *)
+    ref_evals6 (ps ++ cs) (seq (length sg2) (length rs) ++ clocs) (sg2 ++ rs) rho2 bodies vs sg3 rho3 ->
+    vs = pre ++ [r] ->
+    ref_eval6 sc lv sg rho (WApp f args) r sg3 rho3
+with ref_evals6 : list text -> list nat -> store6 -> env6 -> list expr6 -> list rval6 -> store6 -> env6 -> Prop :=
+| R6_nil sc lv sg rho : ref_evals6 sc lv sg rho [] [] sg rho
+| R6_cons sc lv sg rho x r sg1 rho1 xs rs sg2 rho2 :
+    ref_eval6 sc lv sg rho x r sg1 rho1 -> ref_evals6 sc lv sg1 rho1 xs rs sg2 rho2 ->
+    ref_evals6 sc lv sg rho (x :: xs) (r :: rs) sg2 rho2.
 
 Scheme ref_eval6_mut := Induction for ref_eval6 Sort Prop
   with ref_evals6_mut := Induction for ref_evals6 Sort Prop.
@@ -338,13 +357,6 @@ Proof.
       * intros k x Hk. replace (i + 1 + N.of_nat k) with (i + N.of_nat (S k)) by lia. apply H. exact Hk.
 Qed.
 
-(* a slot value that is a pointer to a direct slot (heap address of the environment, index)
-   whose content satisfies P *)
-Definition ptr_slot6 (m : vm) (v : vcell) (P : vcell -> Prop) : Prop :=
-  exists a j eid sl w, v = VLexPtr a j /\ allocated (hp m) a /\ cell_at (hp m) a = VLexEnv eid /\
-    eid < next_id (st m) /\ tget (envs (st m)) eid = Some sl /\ list_get sl j = Some w /\
-    (forall e i, w <> VLexPtr e i) /\ P w.
-
 (* the code object of a closure: a lambda with parameters ps and captured entries for cs whose
    bytecode is ENTER; cb; RET where cb is what the body loop emitted for the body expressions (the
    last one in tail position), under a header binding ps ++ cs, in some earlier state s0' that m
@@ -401,19 +413,6 @@ Definition closure_code6 (m : vm) (lamp : N) (ps cs : list text) (bodies : list 
     compile_bodies6 f lam2 (map cell_of6 bodies) s0 = ROk lam3 s0' /\
     fwd lam2 = [VOp OEnter] /\ fwd lam3 = fwd lam2 ++ cb /\ cext s0' m.
 
-Fixpoint vrep6 (m : vm) (v : vcell) (r : rval6) {struct r} : Prop :=
-  match r with
-  | R6Base b => vrep v b (hp m) (st m)
-  | R6Clo ps cs bodies cvals =>
-      exists cp lamp cep ceid cslots, v = VPtr cp /\
-        allocated (hp m) cp /\ cell_at (hp m) cp = VClosure lamp cep /\
-        allocated (hp m) cep /\ cell_at (hp m) cep = VLexEnv ceid /\ ceid < next_id (st m) /\
-        tget (envs (st m)) ceid = Some cslots /\ len cslots = len ps + len cs /\
-        length cvals = length cs /\ closure_code6 m lamp ps cs bodies /\
-        all_idx6 (fun i cv => exists v', list_get cslots i = Some v' /\ ptr_slot6 m v' (fun w => vrep6 m w cv))
-                cvals (len ps)
-  end.
-
 Lemma closure_code_ext6 m m' lamp ps cs bodies : cext m m' -> closure_code6 m lamp ps cs bodies ->
   closure_code6 m' lamp ps cs bodies.
 Proof.
@@ -423,148 +422,300 @@ Proof.
   do 11 (split; [assumption|]). eapply cext_trans; eassumption.
 Qed.
 
-Lemma ptr_slot_ext6 m m' v (P Q : vcell -> Prop) : rext m m' -> (forall w, P w -> Q w) ->
-  ptr_slot6 m v P -> ptr_slot6 m' v Q.
+
+(* ============================================================ the location map *)
+(* location l of the reference store is slot j of the activation environment whose VLexEnv cell
+   is at heap address a; the map only grows (at ENTER of a closure) *)
+Definition lmap := list (N * N).
+Definition prefix6 (mu mu' : lmap) : Prop := exists more, mu' = mu ++ more.
+Lemma prefix6_refl mu : prefix6 mu mu.
+Proof. exists []. rewrite app_nil_r. reflexivity. Qed.
+Lemma prefix6_trans a b c : prefix6 a b -> prefix6 b c -> prefix6 a c.
+Proof. intros [x ->] [y ->]. exists (x ++ y). rewrite app_assoc. reflexivity. Qed.
+Lemma prefix6_nth mu mu' l x : prefix6 mu mu' -> nth_error mu l = Some x -> nth_error mu' l = Some x.
 Proof.
-  intros [X E] HPQ (a & j & eid & sl & w & -> & A & C & Lt & T & G & Hw & Pw).
-  destruct (ce_heap _ _ X a A) as [A' C'].
-  exists a, j, eid, sl, w. split; [reflexivity|]. split; [exact A'|]. split; [congruence|].
-  split; [destruct (ce_store _ _ X); lia|]. split; [rewrite E; assumption|]. split; [exact G|]. split; [exact Hw|auto].
+  intros [more ->] H. rewrite nth_error_app1; [exact H|]. apply nth_error_Some. congruence.
+Qed.
+Lemma prefix6_app mu more : prefix6 mu (mu ++ more).
+Proof. exists more. reflexivity. Qed.
+
+(* ============================================================ the frame condition *)
+(* every existing environment keeps a payload of the same length in which every slot that held a
+   pointer holds the same pointer and every slot that held a direct value holds a direct value *)
+Definition wenvs (m m' : vm) : Prop :=
+  forall e sl, e < next_id (st m) -> tget (envs (st m)) e = Some sl ->
+    exists sl', tget (envs (st m')) e = Some sl' /\ len sl' = len sl /\
+      (forall k a j, list_get sl k = Some (VLexPtr a j) -> list_get sl' k = Some (VLexPtr a j)) /\
+      (forall k w, list_get sl k = Some w -> nonptr w -> exists w', list_get sl' k = Some w' /\ nonptr w').
+Record wext (m m' : vm) : Prop := { wx_cext : cext m m'; wx_envs : wenvs m m' }.
+Record frame6 (m m' : vm) : Prop := { f6_frame : frame m m'; f6_envs : wenvs m m' }.
+
+Lemma wenvs_refl m : wenvs m m.
+Proof. intros e sl _ T. exists sl. split; [exact T|]. split; [reflexivity|]. split; [auto|]. intros k w G Hw. eauto. Qed.
+Lemma wenvs_trans a b c : cext a b -> wenvs a b -> wenvs b c -> wenvs a c.
+Proof.
+  intros X E1 E2 e sl Lt T. destruct (E1 e sl Lt T) as (sl1 & T1 & Ln1 & P1 & N1).
+  destruct (E2 e sl1 ltac:(destruct (ce_store _ _ X); lia) T1) as (sl2 & T2 & Ln2 & P2 & N2).
+  exists sl2. split; [exact T2|]. split; [congruence|]. split.
+  - intros k a0 j G. apply P2, P1, G.
+  - intros k w G Hw. destruct (N1 k w G Hw) as (w1 & G1 & Hw1). apply (N2 k w1 G1 Hw1).
+Qed.
+Lemma wext_refl m : wext m m.
+Proof. split; [apply cext_refl|apply wenvs_refl]. Qed.
+Lemma wext_trans a b c : wext a b -> wext b c -> wext a c.
+Proof.
+  intros [X1 E1] [X2 E2]. split; [eapply cext_trans; eassumption|eapply wenvs_trans; eassumption].
+Qed.
+Lemma rext_wext m m' : rext m m' -> wext m m'.
+Proof.
+  intros [X E]. split; [exact X|]. intros e sl Lt T. exists sl. rewrite E by exact Lt.
+  split; [exact T|]. split; [reflexivity|]. split; [auto|]. intros k w G Hw. eauto.
+Qed.
+Lemma frame6_wext m m' : frame6 m m' -> wext m m'.
+Proof. intros [F E]. split; [apply F|exact E]. Qed.
+Lemma frame6_refl m : frame6 m m.
+Proof. split; [apply frame_refl|apply wenvs_refl]. Qed.
+Lemma frame6_trans a b c : frame6 a b -> frame6 b c -> frame6 a c.
+Proof.
+  intros [F1 E1] [F2 E2]. split; [eapply frame_trans; eassumption|]. eapply wenvs_trans; [apply F1|exact E1|exact E2].
+Qed.
+Lemma frame2_frame6 m m' : frame2 m m' -> frame6 m m'.
+Proof. intros F. split; [apply F|]. apply (wx_envs _ _ (rext_wext _ _ (frame2_rext _ _ F))). Qed.
+Lemma same_mem_frame6 m m' : same_mem m m' -> frame6 m m'.
+Proof. intros SM. apply frame2_frame6, same_mem_frame2, SM. Qed.
+Lemma tframe_frame6 m m' : frame6 m m' -> tframe m -> tframe m'.
+Proof.
+  intros [F _] (k & e & i & b & Hf & Hsp). exists k, e, i, b.
+  split; [eapply frame_at_keep; [exact Hf|exact Hsp|apply F|apply F]|]. rewrite (fr_bp _ _ F), (fr_sp _ _ F). exact Hsp.
 Qed.
 
-Lemma vrep6_ext m m' : rext m m' -> forall r v, vrep6 m v r -> vrep6 m' v r.
+(* ============================================================ representation of values *)
+(* a closure: as in fragment 4, but the captured slots of the closure environment are specified
+   as POINTERS only: the pointer of the k-th captured slot is the address mu gives to the k-th
+   captured location.  The CONTENT of the locations is the business of [store_rel]. *)
+Definition vrep6 (mu : lmap) (m : vm) (v : vcell) (r : rval6) : Prop :=
+  match r with
+  | R6Base b => vrep v b (hp m) (st m)
+  | R6Clo ps cs bodies clocs =>
+      exists cp lamp cep ceid cslots, v = VPtr cp /\
+        allocated (hp m) cp /\ cell_at (hp m) cp = VClosure lamp cep /\
+        allocated (hp m) cep /\ cell_at (hp m) cep = VLexEnv ceid /\ ceid < next_id (st m) /\
+        tget (envs (st m)) ceid = Some cslots /\ len cslots = len ps + len cs /\
+        length clocs = length cs /\ closure_code6 m lamp ps cs bodies /\
+        all_idx6 (fun i l => exists a j, nth_error mu l = Some (a, j) /\ list_get cslots i = Some (VLexPtr a j))
+                 clocs (len ps)
+  end.
+
+Lemma vrep6_ext mu mu' m m' v r : wext m m' -> prefix6 mu mu' -> vrep6 mu m v r -> vrep6 mu' m' v r.
 Proof.
-  intros R. induction r as [b|ps cs bodies cvals IH] using rval6_ind2; intros v H.
-  - cbn [vrep6] in *. eapply vrep_ext; [exact H|apply cext_ext, R].
-  - cbn [vrep6] in *.
-    destruct H as (cp & lamp & cep & ceid & cslots & -> & A1 & C1 & A2 & C2 & Lt & T & L & Lc & CC & All).
-    pose proof (rx_cext _ _ R) as X.
+  intros [X E] Pf. destruct r as [b|ps cs bodies clocs]; cbn [vrep6]; intros H.
+  - eapply vrep_ext; [exact H|apply cext_ext, X].
+  - destruct H as (cp & lamp & cep & ceid & cslots & -> & A1 & C1 & A2 & C2 & Lt & T & L & Lc & CC & All).
     destruct (ce_heap _ _ X cp A1) as [A1' C1']. destruct (ce_heap _ _ X cep A2) as [A2' C2'].
-    exists cp, lamp, cep, ceid, cslots. split; [reflexivity|]. split; [exact A1'|]. split; [congruence|].
+    destruct (E ceid cslots Lt T) as (cslots' & T' & Ln' & P' & _).
+    exists cp, lamp, cep, ceid, cslots'. split; [reflexivity|]. split; [exact A1'|]. split; [congruence|].
     split; [exact A2'|]. split; [congruence|]. split; [destruct (ce_store _ _ X); lia|].
-    split; [rewrite (rx_envs _ _ R) by exact Lt; exact T|]. split; [exact L|]. split; [exact Lc|].
+    split; [exact T'|]. split; [congruence|]. split; [exact Lc|].
     split; [eapply closure_code_ext6; eassumption|].
-    rewrite all_idx_nth6 in *. intros k cv Hk. destruct (All k cv Hk) as (v' & G & PS).
-    exists v'. split; [exact G|]. eapply ptr_slot_ext6; [exact R| |exact PS].
-    intros w Hw. rewrite Forall_forall in IH. apply IH; [eapply nth_error_In; exact Hk|exact Hw].
+    rewrite all_idx_nth6 in *. intros k l Hk. destruct (All k l Hk) as (a & j & Hm & G).
+    exists a, j. split; [eapply prefix6_nth; eassumption|apply P'; exact G].
 Qed.
 
-Lemma vrep6_truth m v r : vrep6 m v r ->
+Lemma vrep6_truth mu m v r : vrep6 mu m v r ->
   exists w, heap_deref (hp m) v = Ok w /\ (w = VBool false <-> is_false6 r = true).
 Proof.
-  destruct r as [b|ps cs bodies cvals]; cbn [vrep6 is_false6].
+  destruct r as [b|ps cs bodies clocs]; cbn [vrep6 is_false6].
   - apply vrep_truth.
   - intros (cp & lamp & cep & ceid & cslots & -> & A1 & C1 & _).
     exists (VClosure lamp cep). cbn [heap_deref]. rewrite (heap_get_alloc _ _ A1), C1.
     split; [reflexivity|]. split; discriminate.
 Qed.
-Lemma vrep6_not_op m v r : vrep6 m v r -> forall o, v <> VOp o.
+Lemma vrep6_not_op mu m v r : vrep6 mu m v r -> forall o, v <> VOp o.
 Proof.
-  destruct r as [b|ps cs bodies cvals]; cbn [vrep6].
+  destruct r as [b|ps cs bodies clocs]; cbn [vrep6].
   - apply vrep_not_op.
   - intros (cp & lamp & cep & ceid & cslots & -> & _) o. discriminate.
 Qed.
-Lemma vrep6_not_undef m v r : vrep6 m v r -> r <> R6Base (RDatum CUndef) -> v <> VUndef.
+Lemma vrep6_not_undef mu m v r : vrep6 mu m v r -> r <> R6Base (RDatum CUndef) -> v <> VUndef.
 Proof.
-  destruct r as [b|ps cs bodies cvals]; cbn [vrep6].
+  destruct r as [b|ps cs bodies clocs]; cbn [vrep6].
   - intros H Hr. eapply vrep_not_undef; [exact H|]. intros ->. apply Hr. reflexivity.
   - intros (cp & lamp & cep & ceid & cslots & -> & _) _. discriminate.
 Qed.
-Lemma vrep6_not_lexptr m v r : vrep6 m v r -> forall e j, v <> VLexPtr e j.
+Lemma vrep6_not_lexptr mu m v r : vrep6 mu m v r -> nonptr v.
 Proof.
-  destruct r as [b|ps cs bodies cvals]; cbn [vrep6].
+  unfold nonptr. destruct r as [b|ps cs bodies clocs]; cbn [vrep6].
   - apply vrep_not_lexptr.
   - intros (cp & lamp & cep & ceid & cslots & -> & _) e j. discriminate.
 Qed.
 
+(* ============================================================ the store *)
+(* every location is a direct slot of an existing environment whose content represents the value
+   the reference store has there; distinct locations are distinct (environment id, slot) pairs *)
+Definition store_rel (mu : lmap) (sg : store6) (m : vm) : Prop :=
+  length mu = length sg /\
+  (forall l a j r, nth_error mu l = Some (a, j) -> nth_error sg l = Some r ->
+     exists eid sl w, allocated (hp m) a /\ cell_at (hp m) a = VLexEnv eid /\ eid < next_id (st m) /\
+       tget (envs (st m)) eid = Some sl /\ list_get sl j = Some w /\ nonptr w /\ vrep6 mu m w r) /\
+  (forall l1 l2 a1 a2 j eid, nth_error mu l1 = Some (a1, j) -> nth_error mu l2 = Some (a2, j) ->
+     cell_at (hp m) a1 = VLexEnv eid -> cell_at (hp m) a2 = VLexEnv eid -> l1 = l2).
+
+Lemma store_rel_nil m : store_rel [] [] m.
+Proof.
+  split; [reflexivity|]. split.
+  - intros l a j r H. destruct l; discriminate.
+  - intros l1 l2 a1 a2 j eid H. destruct l1; discriminate.
+Qed.
+(* every location of the map has a value in the store, and is an allocated environment cell *)
+Lemma store_rel_loc mu sg m l a j : store_rel mu sg m -> nth_error mu l = Some (a, j) ->
+  exists r eid sl w, nth_error sg l = Some r /\ allocated (hp m) a /\ cell_at (hp m) a = VLexEnv eid /\
+    eid < next_id (st m) /\ tget (envs (st m)) eid = Some sl /\ list_get sl j = Some w /\ nonptr w /\ vrep6 mu m w r.
+Proof.
+  intros (Hl & Hc & _) Hm.
+  destruct (nth_error sg l) as [r|] eqn:Er.
+  - destruct (Hc l a j r Hm Er) as (eid & sl & w & H). exists r, eid, sl, w. split; [reflexivity|exact H].
+  - apply nth_error_None in Er. assert (l < length mu)%nat by (apply nth_error_Some; congruence). lia.
+Qed.
+(* code that leaves the existing payloads alone keeps the store relation *)
+Lemma store_rel_rext mu sg m m' : rext m m' -> store_rel mu sg m -> store_rel mu sg m'.
+Proof.
+  intros R SR. pose proof SR as (Hl & Hc & Hi). pose proof (rx_cext _ _ R) as X.
+  split; [exact Hl|]. split.
+  - intros l a j r Hm Hs. destruct (Hc l a j r Hm Hs) as (eid & sl & w & A & C & Lt & T & G & Hw & V).
+    destruct (ce_heap _ _ X a A) as [A' C']. exists eid, sl, w. split; [exact A'|]. split; [congruence|].
+    split; [destruct (ce_store _ _ X); lia|]. split; [rewrite (rx_envs _ _ R) by exact Lt; exact T|].
+    split; [exact G|]. split; [exact Hw|]. eapply vrep6_ext; [apply rext_wext; exact R|apply prefix6_refl|exact V].
+  - intros l1 l2 a1 a2 j eid H1 H2 C1 C2.
+    destruct (store_rel_loc _ _ _ _ _ _ SR H1) as (_ & _ & _ & _ & _ & A1 & _).
+    destruct (store_rel_loc _ _ _ _ _ _ SR H2) as (_ & _ & _ & _ & _ & A2 & _).
+    destruct (ce_heap _ _ X a1 A1) as [_ E1]. destruct (ce_heap _ _ X a2 A2) as [_ E2].
+    apply (Hi l1 l2 a1 a2 j eid H1 H2); congruence.
+Qed.
+
 (* ============================================================ dynamic context *)
-Definition genv_rel6 (rho : env6) (m : vm) : Prop :=
+Definition genv_rel6 (mu : lmap) (rho : env6) (m : vm) : Prop :=
   forall x r, rho x = Some r -> exists a k v,
     allocated (hp m) a /\ cell_at (hp m) a = VSym x /\ assoc_find (g_bind m) a = Some k /\
-    list_get (g_slots m) k = Some v /\ vrep6 m v r.
+    list_get (g_slots m) k = Some v /\ vrep6 mu m v r.
 
-Lemma genv_rel6_ext rho m m' : rext m m' -> g_slots m' = g_slots m -> genv_rel6 rho m -> genv_rel6 rho m'.
+Lemma genv_rel6_ext mu mu' rho m m' : wext m m' -> prefix6 mu mu' -> g_slots m' = g_slots m ->
+  genv_rel6 mu rho m -> genv_rel6 mu' rho m'.
 Proof.
-  intros R Eg G x r Hx. destruct (G x r Hx) as (a & k & v & A & C & B & L & V).
-  pose proof (rx_cext _ _ R) as X. destruct (ce_heap _ _ X a A) as [A' C'].
+  intros R Pf Eg G x r Hx. destruct (G x r Hx) as (a & k & v & A & C & B & L & V).
+  pose proof (wx_cext _ _ R) as X. destruct (ce_heap _ _ X a A) as [A' C'].
   exists a, k, v. split; [exact A'|]. split; [congruence|]. split; [apply (ce_bind _ _ X); exact B|].
   split; [rewrite Eg; exact L|]. eapply vrep6_ext; eassumption.
 Qed.
-Lemma genv_rel6_empty m : genv_rel6 rho6_empty m.
+Lemma genv_rel6_empty mu m : genv_rel6 mu rho6_empty m.
 Proof. intros x r H. discriminate. Qed.
 
-(* the environment %ep points to: slot i holds the i-th value directly, or a pointer to a
-   direct slot that holds it *)
-Definition slot_holds6 (m : vm) (v : vcell) (r : rval6) : Prop :=
-  ((forall e j, v <> VLexPtr e j) /\ vrep6 m v r) \/ ptr_slot6 m v (fun w => vrep6 m w r).
-Definition lrel6 (lv : list rval6) (m : vm) : Prop :=
-  forall i r, nth_error lv (N.to_nat i) = Some r ->
+(* the environment %ep points to: slot i is the location lv[i] itself (a direct slot, mu gives
+   its own address) or holds the pointer mu gives to that location *)
+Definition lrel6 (mu : lmap) (lv : list nat) (m : vm) : Prop :=
+  forall i l, nth_error lv (N.to_nat i) = Some l ->
+  exists eid slots v a j, allocated (hp m) (ep m) /\ cell_at (hp m) (ep m) = VLexEnv eid /\
+    eid < next_id (st m) /\ tget (envs (st m)) eid = Some slots /\ list_get slots i = Some v /\
+    nth_error mu l = Some (a, j) /\
+    ((nonptr v /\ a = ep m /\ j = i) \/ v = VLexPtr a j).
+Lemma lrel6_nil mu m : lrel6 mu [] m.
+Proof. intros i r H. destruct (N.to_nat i); discriminate. Qed.
+Lemma lrel6_ext mu mu' lv m m' : wext m m' -> prefix6 mu mu' -> ep m' = ep m -> lrel6 mu lv m -> lrel6 mu' lv m'.
+Proof.
+  intros [X E] Pf Hep L i l Hi. destruct (L i l Hi) as (eid & slots & v & a & j & A & C & Lt & T & G & Hm & Hcase).
+  destruct (ce_heap _ _ X _ A) as [A' C']. destruct (E eid slots Lt T) as (slots' & T' & Ln' & P' & N').
+  destruct Hcase as [(Hn & -> & ->)| ->].
+  - destruct (N' i v G Hn) as (v' & G' & Hn'). exists eid, slots', v', (ep m'), i. rewrite Hep.
+    split; [exact A'|]. split; [congruence|]. split; [destruct (ce_store _ _ X); lia|]. split; [exact T'|].
+    split; [exact G'|]. split; [eapply prefix6_nth; eassumption|]. left. auto.
+  - exists eid, slots', (VLexPtr a j), a, j. rewrite Hep.
+    split; [exact A'|]. split; [congruence|]. split; [destruct (ce_store _ _ X); lia|]. split; [exact T'|].
+    split; [apply P'; exact G|]. split; [eapply prefix6_nth; eassumption|]. right. reflexivity.
+Qed.
+Lemma lrel6_frame6 mu mu' lv m m' : frame6 m m' -> prefix6 mu mu' -> lrel6 mu lv m -> lrel6 mu' lv m'.
+Proof. intros F Pf. apply lrel6_ext; [apply frame6_wext; exact F|exact Pf|apply F]. Qed.
+
+(* reading slot i of the running activation through the store: the slot is the location, or
+   holds the pointer to it *)
+Lemma lrel6_read mu lv sg m i l r : lrel6 mu lv m -> store_rel mu sg m ->
+  nth_error lv (N.to_nat i) = Some l -> nth_error sg l = Some r ->
   exists eid slots v, allocated (hp m) (ep m) /\ cell_at (hp m) (ep m) = VLexEnv eid /\
     eid < next_id (st m) /\ tget (envs (st m)) eid = Some slots /\ list_get slots i = Some v /\
-    slot_holds6 m v r.
-Lemma lrel6_nil m : lrel6 [] m.
-Proof. intros i r H. destruct (N.to_nat i); discriminate. Qed.
-Lemma slot_holds_ext6 m m' v r : rext m m' -> slot_holds6 m v r -> slot_holds6 m' v r.
+    ((nonptr v /\ vrep6 mu m v r) \/
+     (exists a j eid2 sl w, v = VLexPtr a j /\ allocated (hp m) a /\ cell_at (hp m) a = VLexEnv eid2 /\
+        eid2 < next_id (st m) /\ tget (envs (st m)) eid2 = Some sl /\ list_get sl j = Some w /\ nonptr w /\
+        vrep6 mu m w r)).
 Proof.
-  intros R [[Hn V]|PS]; [left; split; [exact Hn|eapply vrep6_ext; eassumption]|right].
-  eapply ptr_slot_ext6; [exact R| |exact PS]. intros w. apply vrep6_ext. exact R.
+  intros L (_ & Hc & _) Hi Hs. destruct (L i l Hi) as (eid & slots & v & a & j & A & C & Lt & T & G & Hm & Hcase).
+  destruct (Hc l a j r Hm Hs) as (eid2 & sl & w & A2 & C2 & Lt2 & T2 & G2 & Hw & V).
+  exists eid, slots, v. do 5 (split; [assumption|]).
+  destruct Hcase as [(Hn & -> & ->)| ->].
+  - left. split; [exact Hn|]. assert (eid2 = eid) as -> by congruence. assert (sl = slots) as -> by congruence.
+    assert (w = v) as -> by congruence. exact V.
+  - right. exists a, j, eid2, sl, w. auto 10.
 Qed.
-Lemma lrel6_rext lv m m' : rext m m' -> ep m' = ep m -> lrel6 lv m -> lrel6 lv m'.
+(* ... and the machine-level location (StoreLocal5.loc_of) of slot i *)
+Lemma lrel6_loc_of mu lv sg m i l : lrel6 mu lv m -> store_rel mu sg m ->
+  nth_error lv (N.to_nat i) = Some l ->
+  exists a j e, nth_error mu l = Some (a, j) /\ cell_at (hp m) a = VLexEnv e /\ loc_of m i e j.
 Proof.
-  intros R Hep L i r Hi. destruct (L i r Hi) as (eid & slots & v & A & C & Lt & T & G & V).
-  pose proof (rx_cext _ _ R) as X.
-  destruct (ce_heap _ _ X _ A) as [A' C']. exists eid, slots, v. rewrite Hep.
-  split; [exact A'|]. split; [congruence|]. split; [destruct (ce_store _ _ X); lia|].
-  split; [rewrite (rx_envs _ _ R); assumption|]. split; [exact G|]. eapply slot_holds_ext6; eassumption.
+  intros L SR Hi. destruct (L i l Hi) as (eid & slots & v & a & j & A & C & Lt & T & G & Hm & Hcase).
+  destruct (store_rel_loc _ _ _ _ _ _ SR Hm) as (r & eid2 & sl & w & _ & A2 & C2 & Lt2 & T2 & G2 & Hw & _).
+  exists a, j, eid2. split; [exact Hm|]. split; [exact C2|].
+  exists eid, slots, v. do 5 (split; [assumption|]).
+  destruct Hcase as [(Hn & -> & ->)| ->].
+  - left. split; [exact Hn|]. split; [congruence|reflexivity].
+  - right. exists a. split; [reflexivity|]. split; [exact A2|]. split; [exact C2|]. exists sl, w. auto.
 Qed.
-Lemma lrel6_frame2 lv m m' : frame2 m m' -> lrel6 lv m -> lrel6 lv m'.
-Proof. intros F. apply lrel6_rext; [apply frame2_rext; exact F|apply F]. Qed.
 
 Section Exec6.
 Variable ob : N -> M vcell.
 Notation steps := (RunProofs.steps ob).
 
-Definition ok_n6 (m : vm) (lp q : N) (r : rval6) (rho' : env6) : Prop :=
-  exists n m', steps n m = Some m' /\ frame2 m m' /\ minv m' /\ ip m' = (lp, q) /\
-    vrep6 m' (acc m') r /\ genv_rel6 rho' m'.
-Definition ok_t6 (m : vm) (r : rval6) (rho' : env6) : Prop :=
-  exists n m' k e i b, steps n m = Some m' /\ frame_at m k e i b /\ rext m m' /\ minv m' /\
-    vrep6 m' (acc m') r /\ genv_rel6 rho' m' /\
+(* normal completion: the next instruction; registers and the stack below %sp as before, the
+   location map extended, the store as the reference semantics leaves it *)
+Definition ok_n6 (mu : lmap) (sg' : store6) (m : vm) (lp q : N) (r : rval6) (rho' : env6) : Prop :=
+  exists n m' mu', steps n m = Some m' /\ prefix6 mu mu' /\ frame6 m m' /\ minv m' /\ ip m' = (lp, q) /\
+    vrep6 mu' m' (acc m') r /\ genv_rel6 mu' rho' m' /\ store_rel mu' sg' m'.
+(* completion through a tail call: the state the RET of the current frame produces *)
+Definition ok_t6 (mu : lmap) (sg' : store6) (m : vm) (r : rval6) (rho' : env6) : Prop :=
+  exists n m' mu' k e i b, steps n m = Some m' /\ prefix6 mu mu' /\ frame_at m k e i b /\ wext m m' /\ minv m' /\
+    vrep6 mu' m' (acc m') r /\ genv_rel6 mu' rho' m' /\ store_rel mu' sg' m' /\
     sp m' = bp m - k /\ ep m' = e /\ ip m' = i /\ bp m' = b /\ out_log m' = out_log m /\
     (forall j, j <= bp m - k -> sget m' j = sget m j).
 
-Lemma ok_t6_pre m m1 n1 r rho' : steps n1 m = Some m1 -> frame2 m m1 -> bp m + 4 <= sp m ->
-  ok_t6 m1 r rho' -> ok_t6 m r rho'.
+Lemma ok_t6_pre mu mu1 sg' m m1 n1 r rho' : steps n1 m = Some m1 -> frame6 m m1 -> prefix6 mu mu1 ->
+  bp m + 4 <= sp m -> ok_t6 mu1 sg' m1 r rho' -> ok_t6 mu sg' m r rho'.
 Proof.
-  intros St F Hsp (n & m' & k & e & i & b & St' & Hf & X & MI & V & G & E1 & E2 & E3 & E4 & E5 & K).
-  pose proof (f2_frame _ _ F) as F0.
+  intros St F Pf Hsp (n & m' & mu' & k & e & i & b & St' & Pf' & Hf & X & MI & V & G & SR & E1 & E2 & E3 & E4 & E5 & K).
+  pose proof (f6_frame _ _ F) as F0.
   assert (Hf0 : frame_at m k e i b).
   { destruct Hf as (H1 & H2 & H3 & H4 & H5). unfold frame_at.
     rewrite (fr_bp _ _ F0) in *. rewrite !(fr_stack _ _ F0) in * by lia. auto. }
-  exists (n1 + n)%nat, m', k, e, i, b. split; [eapply steps_trans; eassumption|]. split; [exact Hf0|].
-  split; [eapply rext_trans; [apply frame2_rext; exact F|exact X]|]. split; [exact MI|]. split; [exact V|].
-  split; [exact G|]. rewrite (fr_bp _ _ F0) in *. split; [exact E1|]. split; [exact E2|]. split; [exact E3|].
+  exists (n1 + n)%nat, m', mu', k, e, i, b. split; [eapply steps_trans; eassumption|].
+  split; [eapply prefix6_trans; eassumption|]. split; [exact Hf0|].
+  split; [eapply wext_trans; [apply frame6_wext; exact F|exact X]|]. split; [exact MI|]. split; [exact V|].
+  split; [exact G|]. split; [exact SR|]. rewrite (fr_bp _ _ F0) in *. split; [exact E1|]. split; [exact E2|]. split; [exact E3|].
   split; [exact E4|]. split; [rewrite E5; apply F0|].
   intros j Hj. rewrite K by exact Hj. apply (fr_stack _ _ F0). destruct Hf0 as (_ & _ & _ & _ & H5). lia.
 Qed.
 
-Definition exec6 (s0 : vm) (p : N) (code : list vcell) (tail : bool) (lv : list rval6)
-                 (rho : env6) (r : rval6) (rho' : env6) : Prop :=
-  forall m lp bc,
-    cext s0 m -> minv m -> code_in m lp bc -> seg bc p code -> ip m = (lp, p) -> genv_rel6 rho m ->
-    lrel6 lv m -> (tail = true -> tframe m) ->
-    ok_n6 m lp (p + len code) r rho' \/ (tail = true /\ ok_t6 m r rho').
+Definition exec6 (s0 : vm) (p : N) (code : list vcell) (tail : bool) (lv : list nat) (sg : store6)
+                 (rho : env6) (r : rval6) (sg' : store6) (rho' : env6) : Prop :=
+  forall m mu lp bc,
+    cext s0 m -> minv m -> code_in m lp bc -> seg bc p code -> ip m = (lp, p) -> genv_rel6 mu rho m ->
+    lrel6 mu lv m -> store_rel mu sg m -> (tail = true -> tframe m) ->
+    ok_n6 mu sg' m lp (p + len code) r rho' \/ (tail = true /\ ok_t6 mu sg' m r rho').
 
-Lemma exec6_n s0 p code lv rho r rho' : exec6 s0 p code false lv rho r rho' ->
-  forall m lp bc, cext s0 m -> minv m -> code_in m lp bc -> seg bc p code -> ip m = (lp, p) -> genv_rel6 rho m ->
-    lrel6 lv m -> ok_n6 m lp (p + len code) r rho'.
+Lemma exec6_n s0 p code lv sg rho r sg' rho' : exec6 s0 p code false lv sg rho r sg' rho' ->
+  forall m mu lp bc, cext s0 m -> minv m -> code_in m lp bc -> seg bc p code -> ip m = (lp, p) -> genv_rel6 mu rho m ->
+    lrel6 mu lv m -> store_rel mu sg m -> ok_n6 mu sg' m lp (p + len code) r rho'.
 Proof.
-  intros EX m lp bc X MI Hc Hs Hip G L.
-  destruct (EX m lp bc X MI Hc Hs Hip G L ltac:(discriminate)) as [H|[H _]]; [exact H|discriminate].
+  intros EX m mu lp bc X MI Hc Hs Hip G L SR.
+  destruct (EX m mu lp bc X MI Hc Hs Hip G L SR ltac:(discriminate)) as [H|[H _]]; [exact H|discriminate].
 Qed.
-Lemma exec6_ext s s' p code tail lv rho r rho' : cext s' s ->
-  exec6 s' p code tail lv rho r rho' -> exec6 s p code tail lv rho r rho'.
-Proof. intros Xs EX m lp bc Xm. apply EX. eapply cext_trans; eassumption. Qed.
+Lemma exec6_ext s s' p code tail lv sg rho r sg' rho' : cext s' s ->
+  exec6 s' p code tail lv sg rho r sg' rho' -> exec6 s p code tail lv sg rho r sg' rho'.
+Proof. intros Xs EX m mu lp bc Xm. apply EX. eapply cext_trans; eassumption. Qed.
 End Exec6.
 
 (* compilation: what the compile-time theorem provides *)
